@@ -17,23 +17,31 @@ MANIFEST = {
         "technique": "Lean 4 proof (inductive invariants over all schedules of interleaving models of Mutex/Semaphore/Signal/"
                      "Monitor/Thread over an assumed POSIX layer, any number of threads) + controlled-scheduler correspondence "
                      "(real sources over a simulated POSIX layer, identical schedules replayed on the model)",
-        "text": "Theorems over every reachable state of the Lean transition systems (arbitrary schedules incl. spurious wake-ups, "
-                "EINTR and time-outs at any moment, unboundedly many threads): mutual exclusion/re-entrancy, non-blocking tryLock, "
-                "semaphore conservation, Signal and Monitor wake-up contracts, exact deadline arithmetic, timed waits return false "
-                "only after the deadline, join returns the thread function's result.  The models are tied to the current sources on "
-                "every run: the unmodified Mutex/Semaphore/Signal/Monitor/Thread.cpp are compiled against a simulated POSIX layer "
-                "(-include shim) and driven by a controlled scheduler; all schedules of generated 2-4 thread scenarios up to N "
-                "scheduling points (every candidate incl. spurious wake-up / EINTR / time-out / clock tick at each point) and random "
-                "schedules beyond are replayed on the model step by step (chosen step, enabled set, return values, verdict), and an "
-                "independent Python oracle evaluates the contracts on the implementation's trace.",
+        "text": "16 theorems over every reachable state of the Lean transition systems (a schedule is the universally quantified list "
+                "of (thread, action) choices; spurious wake-ups, EINTR, time-outs and clock ticks at any moment; unboundedly many "
+                "threads): mutex_exclusive_reentrant, trylock_nonblocking_succeeds_when_free, sem_conservation, "
+                "signal_true_only_if_set_since_reset, signal_no_waiter_stuck_while_set, signal_set_releases_all_current_waiters, "
+                "signal_mutex_holder_can_step, monitor_waits_le_sets, monitor_set_after_take_releases_a_waiter, deadline_exact, "
+                "deadline_record, timed_false_only_after_deadline_{signal,monitor,semaphore}, join_returns_result, "
+                "driver_stays_within_model; none partial.  The models are tied to the current sources on every run: the unmodified "
+                "Mutex/Semaphore/Signal/Monitor/Thread.cpp are compiled against a simulated POSIX layer (-include shim) and driven by "
+                "a controlled scheduler; all schedules of generated 2-4 thread scenarios up to N scheduling points (every candidate "
+                "incl. spurious wake-up / EINTR / time-out / clock tick at each point), all schedules with a bounded number of "
+                "deviations from the default policy at any depth, and random schedules are replayed on the model step by step (chosen "
+                "step, enabled set, return values, verdict), and an independent Python oracle evaluates the contracts of the property "
+                "on the implementation's trace (mutual exclusion, conservation, wait-true-only-if-set, stuck waiters, "
+                "timed-false-only-after-deadline in virtual time, join results, use of destroyed POSIX objects).",
         "note": "ASSUMED, not verified: the POSIX semantics of lean/Nstd/Sync/Posix.lean = harness/sync/sched.cpp (recursive/default "
                 "mutex, condition variable with spurious wake-ups, signal wakes exactly one chosen waiter, timed-out waiter does not "
                 "consume a signal, semaphore with EINTR, create/join, monotone virtual clock; no CLOCK_REALTIME jumps, no integer "
                 "overflow, time-outs >= 0, sem_timedwait never ENOSYS, pthread_create succeeds); glibc/kernel are not verified.  "
-                "Accesses to the `signaled` flags are atomic at POSIX-call granularity (they are all made under the internal mutex; "
-                "data races are not detectable by a baton scheduler).  The hand translation into Model.lean is validated by the "
-                "correspondence run, not proved.  The stress run on real pthreads is a test.",
-        "design_ref": "DESIGN.md 3/C11",
+                "One atomic step = one POSIX call + the library code up to the next one: the `signaled` flags are only accessed under "
+                "the internal mutex (by inspection; data races are not detectable by a baton scheduler).  Clients respect the API "
+                "preconditions (unlock / Monitor::wait by the holder, one user per Thread object).  Liveness is stated as enabledness "
+                "of the next step, not as termination under fairness.  The hand translation into Model.lean is validated by the "
+                "correspondence run, not proved.  The model mirrors Signal::set as repaired by fixes/sync/0001 (broadcast before "
+                "unlock).  The stress run on real pthreads (harness/sync_stress.cpp) is a test.",
+        "design_ref": "DESIGN.md 3/C11, docs/sync.md",
     }
 }
 PROPS = ["Nstd.Sync.Props"]
@@ -201,6 +209,13 @@ def split_op(o):
     return ("start" if name == "mstart" else name), arg
 
 
+STATS = {}      # measured: how often each call returned what, non-default alternatives taken, ticks (filled by `contracts`)
+
+
+def bump(key, n=1):
+    STATS[key] = STATS.get(key, 0) + n
+
+
 def contracts(sc, tr):
     """returns None or a description of the first contract violation seen in the trace"""
     if not tr.ok:
@@ -275,6 +290,7 @@ def contracts(sc, tr):
             return
         c.e, c.val, c.te = i, v, now
         op = c.op
+        bump(f"{sc.prim}.{op}={'result' if op == 'join' else v}")
         skip = 0
         if op in ("lock",):
             acquire(t, i)
@@ -355,7 +371,10 @@ def contracts(sc, tr):
                 errs.append(f"mutex: lock of thread {u} blocks at step {i} although the mutex is free / owned by the caller")
         if t == 99:
             now += sc.quantum
+            bump("clock ticks taken")
             continue
+        if a > 0:
+            bump("alternative >= 1 taken (time-out / EINTR / n-th waiter signalled)")
         if t >= n:
             errs.append(f"unknown thread {t}")
             break
@@ -372,6 +391,7 @@ def contracts(sc, tr):
             break
     if errs:
         return errs[0]
+    bump(f"verdict {sc.prim} {tr.verdict}")
     last = len(tr.steps)
     INF = 10 ** 9
     if sc.prim == "sig":
@@ -393,7 +413,10 @@ def contracts(sc, tr):
                     q.e is not None and any(q.e <= s.b for s in done_sets) for q in resets)
                 if definitely_set:
                     return f"signal: thread {stuck_wait[0].t} stays blocked in wait() although the signal remains set"
-    if sc.prim == "mon" and tr.verdict == "deadlock":
+    # (a waiter that was woken still has to re-acquire the monitor: if a client keeps the monitor locked for ever - e.g. it
+    #  dead-locked itself by calling set() while holding the non-recursive monitor - the waiter is stuck through no fault of
+    #  set(); the rule therefore only applies when the monitor is free at the end)
+    if sc.prim == "mon" and tr.verdict == "deadlock" and depth == 0:
         for w in calls:
             if w.e is None and w.op == "wait":
                 for s in calls:
@@ -577,6 +600,7 @@ FIXED_SCENARIOS = [
 
 def check(ctx):
     quick = ctx.tier == "quick"
+    STATS.clear()
     ctx.assumptions += [
         "POSIX semantics as written in lean/Nstd/Sync/Posix.lean and implemented by harness/sync/sched.cpp (glibc / kernel are NOT verified): "
         "recursive and default mutexes, condition variables with spurious wake-ups, pthread_cond_signal wakes one waiter if any, a timed-out "
@@ -630,6 +654,7 @@ def check(ctx):
         ctx.cov["op_histogram"] = ops
         ctx.cov["scenarios_per_primitive"] = prims
         ctx.cov["verdicts"] = ex.verdicts
+        ctx.cov["branch_hits"] = dict(sorted(STATS.items()))
         ctx.cov["longest_run_scheduling_points"] = ex.max_points
         ctx.cov["exhaustive"] = False
         ctx.cov["exhaustive_scope"] = (f"all choice sequences (threads x alternatives incl. spurious wake-up, EINTR, time-out, clock tick) of the first "
